@@ -13,7 +13,7 @@ Require Import Selen.Model.Dom Selen.Model.Views Selen.Model.PropDefs Selen.Mode
 Require Import Selen.Model.LP Selen.Model.Limits Selen.Generated.Consts.
 Require Import Selen.Model.Gac Selen.Model.Props.AllDiff.
 Require Import Selen.Model.B64 Selen.Model.FloatInterval Selen.Model.CtxFloat.
-Require Import Selen.Model.Api Selen.Model.Lower.
+Require Import Selen.Model.Api Selen.Model.Lower Selen.Model.Routes.
 Extraction Language OCaml.
 Set Extraction AccessOpaque.
 Cd "Extract".
@@ -32,6 +32,8 @@ Extraction "selen_model.ml"
   fifo lcg_pick propagate prop_fuel agenda_with search enumerate minimize maximize solve
   solve_lim minimize_lim enumerate_lim never from_check engine_check_interval
   fold fold_cons eval_expr eval_cons holds stmt_cons build lower validate psat to_linear linform
+  rbuild rbuild_fixed rexec rexec_fixed rs0 ruv rn_route rlower rvalidate denote_route route_sem route_fun returns
+  kf_mod_const kf_mod_zero_div kf_const_const kf_felement_bounds kf_noop_route kf_linreif_zero kf_linreif_len kf_gcc_len kf_nonbool_arg
   kf_or_not kf_nested_ne kf_aux_bounds win_cons impl_cons exec_cons all_asgs asg_of_list or_eq_pattern
   mkLP lp_wf feasible objective check_opt check_infeasible feasible_tol q_close_rel lp_solve f64_to_Q qdot lp_nvars needs_phase1
   bs_new bs_from_values sp_new sp_from_values bs_remove_value bs_assign bs_remove_above bs_remove_below sp_assign
